@@ -274,11 +274,32 @@ def run(ctx, tier):
         for b in P.planner_bodies(p):
             planner_of[b.path] = p
     counts = {'local-guard': 0, 'checked-invariant': 0, 'malformed-input': 0, 'capacity': 0, 'violation': 0}
+    # shared private helpers (and their closures) that only the planners' own functions call work on those planners' data:
+    # a helper used by one planner is judged as that planner's code
+    callers = {}
+    for cb in ctx.lib_bodies():
+        for pth in ctx.local_callees(cb):
+            callers.setdefault(pth, set()).add(cb.path)
+
+    def owner_planner(path, depth=0):
+        if path in planner_of:
+            return planner_of[path]
+        if depth > 3:
+            return None
+        base = path.split('::{closure', 1)[0]
+        if base != path:
+            return owner_planner(base, depth + 1)
+        hb = ctx.core.body(path)
+        if hb is None or hb.is_pub or hb.kind != 'Fn':
+            return None
+        ps = [owner_planner(c, depth + 1) for c in callers.get(path, ())]
+        ps = [x for x in ps if x is not None]
+        return ps[0] if ps and len(ps) == len(callers.get(path, ())) else None
     for b in sorted(reach, key=lambda x: x.path):
         fn = ctx.fn(b)
         ordn = {}
         for (kind, detail, bi, t) in sites_of(ctx, b):
-            cls, why, what = discharge(ctx, planner_of.get(b.path), b, fn, kind, detail, bi, t)
+            cls, why, what = discharge(ctx, owner_planner(b.path), b, fn, kind, detail, bi, t)
             key = '%s:%s' % (kind, what)
             k = ordn.get(key, 0)
             ordn[key] = k + 1
@@ -317,6 +338,10 @@ def discharge(ctx, p, b, fn, kind, detail, bi, t):
         if re.search(frx, path) and re.search(srx, '%s:%s' % (kind, what)):
             return 'malformed-input', reason, what
     if kind == 'panic':
+        if _is_macro(b, bi, ('debug_assert', 'debug_assert_eq', 'debug_assert_ne')):
+            # compiled out unless debug_assertions are on; in a debug build it restates an invariant the author believes in.
+            # Not decided here (listed in the evidence as debug-only): a false debug assertion fails the project's own tests.
+            return 'debug-only', 'debug_assert!: absent from release builds (the asserted invariant itself is not decided)', what
         return 'violation', 'explicit panic / assertion reachable from the planner API', what
     if kind == 'assert':
         if detail.startswith('Overflow'):
@@ -329,6 +354,13 @@ def discharge(ctx, p, b, fn, kind, detail, bi, t):
             ok, why = _bounds_ok(ctx, p, b, fn, bi)
             return ('local-guard', why, what) if ok else ('violation', why, what)
         if detail.startswith(('DivisionByZero', 'RemainderByZero')):
+            # `x / 2`: the zero test rustc emits compares a non-zero literal with 0
+            for st in b.blocks[bi]['stmts']:
+                if st['k'] == 'assign' and st['rv']['k'] == 'binop' and st['rv']['op'] == 'Eq':
+                    for o in (st['rv']['a'], st['rv']['b']):
+                        c = o.get('const') if isinstance(o, dict) else None
+                        if c is not None and str(c.get('ival', c.get('bits', '0'))) not in ('0', 'None'):
+                            return 'local-guard', 'division by a non-zero literal', what
             return 'violation', 'integer division by a value that may be zero', what
         return 'violation', 'assertion %s' % detail, what
     if kind == 'unwrap':
@@ -512,6 +544,8 @@ def _index_ok(ctx, p, b, fn, bi, base, idx):
         return True
     if _is_marker(base):
         return 'inv', 'marker vector sized to the roadmap; indices are roadmap indices (C18.bfs)'
+    if p is not None and P.goal_mask_info(ctx, p, base) is not None:
+        return 'inv', 'goal mask with one entry per milestone; indices are roadmap indices (C18.bfs)'
     # index is a parameter of a private helper: every call site must pass an iteration index
     if idx and all(n[0] == 'param' for n in idx) and not b.is_pub and b.kind in ('AssocFn', 'Fn'):
         sites = 0
